@@ -11,7 +11,7 @@ def run(tier, seed):
     ck.proof = lib.proof_step('props/C19.v', matchcheck.MATCH_CONE + ['TextFacts.v'])
     ck.broken += ck.proof['broken']
     if not ck.proof['driver_ok']:
-        return ck.finish(rule='driver unavailable')
+        ck.notes['driver'] = 'unavailable: model-side runs skipped, searching with the implementation-side oracles only'
     n = 200 if tier == 'quick' else 4000
     scs = campaign.build(ck.rnd, 'contains', n, 8, depth=1, all_match=True)
     scs += campaign.build(ck.rnd, 'langdir', n // 2, 6, feats=('core', 'contains'), depth=1, all_match=True)   # iframes
